@@ -362,7 +362,13 @@ func minVersion(v1, v2 string) string {
 	if v1 == "" || v2 == "" {
 		return ""
 	}
-	if semver.Compare(v1, v2) > 0 {
+	compare := semver.Compare
+	if version.IsValid(v1) && version.IsValid(v2) {
+		// Toolchain programs use Go versions, which are not valid semver
+		// (and so all compare equal under semver.Compare).
+		compare = version.Compare
+	}
+	if compare(v1, v2) > 0 {
 		return v2
 	}
 	return v1
